@@ -187,16 +187,24 @@ theorem bindCommit_ok {t : State} (hf : NoFault t) (pod : Pod) (ns name : String
 
 /-! ### Bind, unfolded once -/
 
-/-- the UID guard of `allocateIP` -/
-def uidConflict (t : State) (pod : Pod) (infos : List (Option IP)) : Bool :=
-  (infos.filterMap id).any (fun ip =>
+/-- the UID guard of `allocateIP` ("waiting for delete event of … before reuse this ip") -/
+def uidConflict (F : Facts) (t : State) (pod : Pod) (infos : List (Option IP)) : Bool :=
+  (bindGuardIPs F t pod infos).any (fun ip =>
     match Tbl.get t.alloc ip with
     | some r => r.uid != 0 && r.uid != pod.uid
     | none => false)
 
+/-- the scheduler binds the pod the lister shows: Bind's lister-UID check passes -/
+theorem listerUid_ok (F : Facts) (pod : Pod) (uid : Nat) (h : uid = 0 ∨ pod.uid = uid) :
+    (F.bindChecksListerUID && uid != 0 && pod.uid != 0 && pod.uid != uid) = false := by
+  rcases h with h | h
+  · subst h; simp
+  · subst h; simp
+
 theorem bind_eq (F : Facts) (t : State) (ns name : String) (uid : Nat) (node : String) (ch : Choice) (pod : Pod)
-    (hv : Tbl.get t.vPods (ns, name) = some pod) (hw : pod.wants = true) (infos : List (Option IP))
-    (hi : bindInfos t pod ch = some infos) (hu : (F.bindChecksUID && uidConflict t pod infos) = false)
+    (hv : Tbl.get t.vPods (ns, name) = some pod) (hw : pod.wants = true) (hlu : uid = 0 ∨ pod.uid = uid)
+    (infos : List (Option IP))
+    (hi : bindInfos t pod ch = some infos) (hu : (F.bindChecksUID && uidConflict F t pod infos) = false)
     (A : State × Res × List (Option IP))
     (hA : bindAlloc t pod node { policy := policyOf pod, node := node, uid := pod.uid } infos ch.pick = A) :
     bind F t ns name uid node ch =
@@ -212,26 +220,28 @@ theorem bind_eq (F : Facts) (t : State) (ns name : String) (uid : Nat) (node : S
             (infos.filterMap id) (A.2.2.filterMap id)).1, { res := e }) := by
   subst hA
   unfold bind
-  simp only [hv, hw, hi, Bool.not_true, Bool.false_eq_true, if_false]
+  simp only [hv, hw, hi, listerUid_ok F pod uid hlu, Bool.not_true, Bool.false_eq_true, if_false]
   split
   · rename_i h
-    have h2 : (F.bindChecksUID && uidConflict t pod infos) = true := h
+    have h2 : (F.bindChecksUID && uidConflict F t pod infos) = true := h
     rw [hu] at h2; cases h2
   · rfl
 
 theorem bind_bad (F : Facts) (t : State) (ns name : String) (uid : Nat) (node : String) (ch : Choice) (pod : Pod)
-    (hv : Tbl.get t.vPods (ns, name) = some pod) (hw : pod.wants = true) (hi : bindInfos t pod ch = none) :
+    (hv : Tbl.get t.vPods (ns, name) = some pod) (hw : pod.wants = true) (hlu : uid = 0 ∨ pod.uid = uid)
+    (hi : bindInfos t pod ch = none) :
     (bind F t ns name uid node ch).2.res = .inadmissible := by
   unfold bind
-  simp only [hv, hw, hi, Bool.not_true, Bool.false_eq_true, if_false]
+  simp only [hv, hw, hi, listerUid_ok F pod uid hlu, Bool.not_true, Bool.false_eq_true, if_false]
   rfl
 
 theorem bind_waiting (F : Facts) (t : State) (ns name : String) (uid : Nat) (node : String) (ch : Choice) (pod : Pod)
-    (hv : Tbl.get t.vPods (ns, name) = some pod) (hw : pod.wants = true) (infos : List (Option IP))
-    (hi : bindInfos t pod ch = some infos) (hu : (F.bindChecksUID && uidConflict t pod infos) = true) :
+    (hv : Tbl.get t.vPods (ns, name) = some pod) (hw : pod.wants = true) (hlu : uid = 0 ∨ pod.uid = uid)
+    (infos : List (Option IP))
+    (hi : bindInfos t pod ch = some infos) (hu : (F.bindChecksUID && uidConflict F t pod infos) = true) :
     (bind F t ns name uid node ch).2.res = .err "waiting-for-delete" := by
   unfold bind
-  simp only [hv, hw, hi, Bool.not_true, Bool.false_eq_true, if_false]
+  simp only [hv, hw, hi, listerUid_ok F pod uid hlu, Bool.not_true, Bool.false_eq_true, if_false]
   split
   · rfl
   · rename_i h
